@@ -54,10 +54,35 @@ def _pair(cls, tag, a, b, must_equal, detail):
             tag, detail()))
 
 
+def extra_variants(cls, args):
+    """Class-specific single-parameter variants the generic perturbers produce too rarely."""
+    out = []
+    if cls == "ScenarioID":
+        p = args.get("prediction_id")
+        if isinstance(p, int) and not isinstance(p, bool):
+            out.append({"k": "prediction_id", "set": {"prediction_id": {"$list": [p]}}})      # n -> [n]
+        elif isinstance(p, dict) and "$list" in p and len(p["$list"]) >= 1:
+            out.append({"k": "prediction_id", "set": {"prediction_id": p["$list"][0]}})        # [n, ...] -> n
+    return out
+
+
+MOTION = ([3.0, -2.0], 0.7)
+
+
+def moved(obj):
+    """obj after the public rigid motion (mutating or returning a new object), None if the class has none."""
+    import numpy as np
+    if not hasattr(obj, "translate_rotate"):
+        return None
+    res = obj.translate_rotate(np.array(MOTION[0]), MOTION[1])
+    return obj if res is None else res
+
+
 def check_case(r, ctx):
     spec = K.SPECS[r["cls"]]
     cls = r["cls"]
     args = r["args"]
+    r = dict(r, variants=list(r["variants"]) + extra_variants(cls, args))
     with warnings.catch_warnings():
         warnings.simplefilter("ignore")
         x = K.construct(spec, args)
@@ -130,6 +155,23 @@ def check_case(r, ctx):
                                 "x == %s copy but hashes differ (%s); args %s" % (tag, tag, K.canon(args)[:800]))
         for k, y in ys:
             hash(y)
+        # equality and hash follow the object through a public mutation: x has been compared and hashed above (any
+        # cached key is filled); x moved must equal a freshly built, never compared object moved the same way, and
+        # must differ from the unmoved rebuild when the motion changed a public attribute
+        try:
+            fresh = K.construct(spec, args)
+            xm, fm = moved(x), moved(fresh)
+        except Exception:
+            xm = fm = None   # translate_rotate failing is C05's business
+        if xm is not None and fm is not None and K.snap_cmp(K.snap(xm), K.snap(fm))[0] == K.SAME:
+            _pair(cls, "moved-after-compare", xm, fm, True, lambda: "translate_rotate%r after ==/hash; args %s" % (
+                MOTION, K.canon(args)[:600]))
+            if hash(xm) != hash(fm):
+                raise Violation("%s-hash-differs-moved" % cls, "x moved == fresh moved but hashes differ")
+            if K.snap_cmp(K.snap(xm), K.snap(x2))[0] == K.DIFFERENT:
+                _pair(cls, "perturb:%s.moved" % cls, xm, x2, False, lambda: "object moved by %r vs unmoved rebuild" % (
+                    MOTION,))
+            ctx.label("moved-after-compare")
     if nontrivial:
         ctx.nontrivial()
 
